@@ -252,7 +252,7 @@ fn long_message(rng: &mut Rng, alphabet: &[char]) -> String {
 
 pub fn run(cx: &mut Ctx) {
     cx.require(REQUIRED);
-    cx.rule = "bounded-exhaustive: keys {a,b,c} x values {\"x\", backslash-n, LF, backslash+LF} with the 18 operations set(k,v) / delete(k) / set(k,get(k)): every history of length <= 4 (quick) / <= 5 (thorough), model compared after every step; random histories of 20..300 operations over 1..12 keys (1 in 25: 300..700 operations over 66..260 keys) in either file format and endianness, with messages over the alphabet {backslash, n, LF, CR, a, hiragana a, yen sign, half-width katakana a}; every final state is serialized and re-read (C06 monitor). non-trivial = history containing a delete followed by a later set of a then-absent key; distinct by history hash".into();
+    cx.rule = "bounded-exhaustive: keys {a,b,c} x values {\"x\", backslash-n, LF, backslash+LF} with the 18 operations set(k,v) / delete(k) / set(k,get(k)): every history of length <= 4 (quick) / <= 5 (thorough), model compared after every step; random histories of 20..300 operations over 1..12 keys (1 in 25: 300..700 operations over 66..260 keys) in either file format and endianness, with messages over the alphabet {backslash, n, LF, CR, a, hiragana a, yen sign, half-width katakana a}; every final state is serialized and re-read (C06 monitor). non-trivial = history containing a delete followed by a later set of a then-absent key; long messages (65..300 newlines, escapes across multiples of 256 bytes, 200..900 characters); one 70000-operation history (more than 65536 sets) per format; distinct by history hash".into();
     let keys: Vec<String> = ["a", "b", "c"].iter().map(|s| s.to_string()).collect();
     let vals: Vec<String> = ["x", "\\n", "\n", "\\\n"].iter().map(|s| s.to_string()).collect();
     let mut ops: Vec<TOp> = Vec::new();
